@@ -86,6 +86,18 @@ def gen(seed, idx, tier):
         lu, fu, cu = rnd.choice(scen.UNIT_LEN), rnd.choice(scen.UNIT_FIELD), rnd.choice(scen.UNIT_CUR)
         if (lu, fu, cu) != (lu0, fu0, cu0):
             break
+    if rnd.random() < 0.35:
+        # extremes of the raw numbers: (mm, T, mA) makes them smallest, (nm, uT, nA) largest;
+        # combined with a slowly varying field so that absolute thresholds on raw values matter
+        lu, fu, cu = rnd.choice([("mm", "T", "mA"), ("nm", "uT", "nA"), ("mm", "T", "nA")])
+        if (lu, fu, cu) == (lu0, fu0, cu0):
+            lu, fu, cu = "um", "mT", "uA"
+        if not screening and rnd.random() < 0.8:
+            steps = scn["meta"]["steps"]
+            rel = rnd.choice([1e-1, 1e-2, 1e-3, 1e-4])
+            B0 = scn["drive"]["field"].get("B") or (0.3 * scen.FIELD_FACTOR[fu0])
+            scn["drive"]["field"] = {"kind": "ramp", "B": B0, "tmin": 0.0, "tmax": scn["options"]["solve_time"], "initial": rnd.choice([1.0, 0.0]), "final": 1.0 + rel * steps}
+            scn["meta"]["slow_rel"] = rel
     scn["twin_units"] = [lu, fu, cu]
     return scn
 
